@@ -1,12 +1,17 @@
 package astisub
 
-import "time"
+import (
+	"bytes"
+	"time"
+)
 
 type vc13World struct {
 	s       *Subtitles
 	styles  []*Style
 	regions []*Region
 }
+
+var vc13Concrete bool // concrete identifiers (the writers then see ordinary strings)
 
 // vc13Build builds a list with an arbitrary (acyclic) reference graph. Shapes are chosen with choose().
 func vc13Build(ns, nr, nc int, reducedSecond bool) *vc13World {
@@ -15,6 +20,10 @@ func vc13Build(ns, nr, nc int, reducedSecond bool) *vc13World {
 	// lookup inside the real code is then a solver decision rather than a concrete string compare
 	var ids []string
 	newID := func() string {
+		if vc13Concrete {
+			ids = append(ids, "id"+string(rune('a'+len(ids))))
+			return ids[len(ids)-1]
+		}
 		id := vsymstr(1, "abcdefghijklmnop")
 		for _, o := range ids {
 			vassume(vnot(veqstr(id, o)))
@@ -237,6 +246,61 @@ func VH_C13_RemoveStyling() {
 				vassert(li.Style == nil && li.InlineStyle == nil, "C13 RemoveStyling: run styling removed")
 			}
 		}
+	}
+	vreach("end")
+}
+
+// C13: the optimized list can still be written to every format and read back with the same cues: whatever was
+// removed, no reference the writers or the destination's reader follow is left dangling. Every acyclic reference
+// graph of 2 / 3 styles, 1 / 2 regions, 2 cues (concrete identifiers), 5 destination formats.
+func VH_C13_OptimizeThenWrite() {
+	vmode("int")
+	vc13Concrete = true
+	ns := vbound("styles", 2, 3)
+	nr := vbound("regions", 1, 2)
+	w := vc13Build(ns, nr, 2, true)
+	s := w.s
+	s.Optimize()
+	vreach("optimized")
+	dst := choose(5)
+	var buf bytes.Buffer
+	var werr, rerr error
+	var r *Subtitles
+	switch dst {
+	case 0:
+		werr = s.WriteToSRT(&buf)
+	case 1:
+		werr = s.WriteToWebVTT(&buf)
+	case 2:
+		werr = s.WriteToSSA(&buf)
+	case 3:
+		werr = s.WriteToSTL(&buf)
+	case 4:
+		werr = vc07WriteTTML(s, &buf)
+	}
+	vassert(werr == nil, "C13 optimized list: every writer succeeds")
+	if werr != nil {
+		return
+	}
+	switch dst {
+	case 0:
+		r, rerr = ReadFromSRT(bytes.NewReader(buf.Bytes()))
+	case 1:
+		r, rerr = ReadFromWebVTT(bytes.NewReader(buf.Bytes()))
+	case 2:
+		r, rerr = ReadFromSSA(bytes.NewReader(buf.Bytes()))
+	case 3:
+		r, rerr = ReadFromSTL(bytes.NewReader(buf.Bytes()), STLOptions{})
+	case 4:
+		r, rerr = ReadFromTTML(bytes.NewReader(buf.Bytes()))
+	}
+	vassert(rerr == nil, "C13 optimized list: what was written reads back")
+	if rerr != nil {
+		return
+	}
+	vassert(len(r.Items) == 2, "C13 optimized list: same cues read back")
+	for i := 0; i < len(r.Items) && i < 2; i++ {
+		vassert(r.Items[i].StartAt == time.Duration(i)*time.Second && r.Items[i].EndAt == time.Duration(i+1)*time.Second, "C13 optimized list: same boundaries read back")
 	}
 	vreach("end")
 }
